@@ -507,6 +507,52 @@ func mustDependOn(v, target ssa.Value) bool {
 					break
 				}
 			}
+			// through a local object: a value read from a local variable depends on what was
+			// written into it before (a store, or copy(dst, src)); the result of a method depends
+			// on what earlier calls handed to the same receiver (`h.Write(b); h.Sum(nil)`)
+			if !res {
+				if ld, isLoad := v.(*ssa.UnOp); isLoad && ld.Op == token.MUL {
+					if al, isAl := ld.X.(*ssa.Alloc); isAl {
+						for _, w := range writesInto(al) {
+							if instrDominates(w.at, ins) && f(w.src) {
+								res = true
+								break
+							}
+						}
+					}
+				}
+				if c, isCall := v.(*ssa.Call); isCall {
+					var recv ssa.Value
+					if c.Call.IsInvoke() {
+						recv = c.Call.Value
+					} else if sc := c.Call.StaticCallee(); sc != nil && sc.Signature.Recv() != nil && len(c.Call.Args) > 0 {
+						recv = c.Call.Args[0]
+					}
+					if recv != nil {
+						for _, i2 := range allInstrs(c.Parent()) {
+							c2, ok := i2.(*ssa.Call)
+							if !ok || c2 == c || !instrDominates(c2, c) {
+								continue
+							}
+							var r2 ssa.Value
+							args := c2.Call.Args
+							if c2.Call.IsInvoke() {
+								r2 = c2.Call.Value
+							} else if sc := c2.Call.StaticCallee(); sc != nil && sc.Signature.Recv() != nil && len(args) > 0 {
+								r2, args = args[0], args[1:]
+							}
+							if r2 != recv {
+								continue
+							}
+							for _, a := range args {
+								if f(a) {
+									res = true
+								}
+							}
+						}
+					}
+				}
+			}
 		}
 		if res {
 			memo[v] = 1
@@ -719,4 +765,43 @@ func isSimpleArith(info *types.Info, e ast.Expr) bool {
 		return ok
 	}
 	return false
+}
+
+type memWrite struct {
+	at  ssa.Instruction
+	src ssa.Value
+}
+
+// writesInto: the instructions that write (part of) a local variable: stores to it or to a
+// field/element of it, and copy(dst, src) with dst a slice of it.
+func writesInto(al *ssa.Alloc) []memWrite {
+	var out []memWrite
+	var walk func(addr ssa.Value, depth int)
+	walk = func(addr ssa.Value, depth int) {
+		if addr.Referrers() == nil || depth > 3 {
+			return
+		}
+		for _, ref := range *addr.Referrers() {
+			switch x := ref.(type) {
+			case *ssa.Store:
+				if x.Addr == addr {
+					out = append(out, memWrite{x, x.Val})
+				}
+			case *ssa.FieldAddr:
+				walk(x, depth+1)
+			case *ssa.IndexAddr:
+				walk(x, depth+1)
+			case *ssa.Slice:
+				for _, r2 := range *x.Referrers() {
+					if c, ok := r2.(*ssa.Call); ok {
+						if b, ok := c.Call.Value.(*ssa.Builtin); ok && b.Name() == "copy" && len(c.Call.Args) == 2 && c.Call.Args[0] == ssa.Value(x) {
+							out = append(out, memWrite{c, c.Call.Args[1]})
+						}
+					}
+				}
+			}
+		}
+	}
+	walk(al, 0)
+	return out
 }
